@@ -175,13 +175,21 @@ func evalFiles(format string, files map[string][]byte, slice uint64, decls []dec
 				}
 			}
 		}
+		// (an inconsistent archive may carry several descriptions of one file, e.g. differing copies in the index and in a
+		// volume: the verdict is truthful if the file matches one of them)
+		declared, matched := map[string]bool{}, map[string]bool{}
 		for _, d := range decls {
 			if _, known := data[d.Name]; !known || d.Length == 0 || !inSet[par2ref.FileID(d.MD516k, d.Length, []byte(d.Name))] {
 				continue
 			}
-			e, ok := before[d.Name]
-			if !ok || uint64(len(e.Data)) != d.Length || md5.Sum(e.Data) != d.MD5 {
-				msg = fmt.Sprintf("Verify reports that no repair is needed, but %q is missing or does not have the length and MD5 the archive declares for it", d.Name)
+			declared[d.Name] = true
+			if e, ok := before[d.Name]; ok && uint64(len(e.Data)) == d.Length && md5.Sum(e.Data) == d.MD5 {
+				matched[d.Name] = true
+			}
+		}
+		for n := range declared {
+			if !matched[n] {
+				msg = fmt.Sprintf("Verify reports that no repair is needed, but %q is missing or has the length and MD5 of none of the descriptions the archive carries for it", n)
 				break
 			}
 		}
